@@ -48,6 +48,7 @@ const (
 	kString
 	kSliceIface
 	kMapSI
+	kFloat64
 )
 
 // conv is the (value, T) table: what Go's conversion (or assignability) of the
@@ -68,6 +69,16 @@ func conv(v interface{}, t tkind) (interface{}, convRes) {
 			return int64(0), cUndet
 		}
 		return nil, cFail
+	case kFloat64:
+		switch x := v.(type) {
+		case float64:
+			return x, cOK
+		case int64:
+			return float64(x), cOK
+		case nil:
+			return float64(0), cUndet
+		}
+		return nil, cFail
 	case kString:
 		switch x := v.(type) {
 		case string:
@@ -84,7 +95,7 @@ func conv(v interface{}, t tkind) (interface{}, convRes) {
 			return x, cOK
 		case nil:
 			return []interface{}(nil), cOK // nil is assignable to a slice type
-		case []int64, []string:
+		case []int64, []string, []float64:
 			return nil, cUndet
 		}
 		return nil, cFail
@@ -104,7 +115,7 @@ func conv(v interface{}, t tkind) (interface{}, convRes) {
 
 func hashable(v interface{}) bool {
 	switch v.(type) {
-	case []interface{}, map[interface{}]interface{}, []int64, []string, map[string]int64:
+	case []interface{}, map[interface{}]interface{}, []int64, []string, []float64, map[string]int64:
 		return false
 	}
 	return true
@@ -199,6 +210,8 @@ func lenOf(v interface{}) (int, bool) {
 		return len(c), true
 	case []string:
 		return len(c), true
+	case []float64:
+		return len(c), true
 	case string:
 		return len(c), true
 	case map[interface{}]interface{}:
@@ -216,6 +229,8 @@ func capOf(v interface{}) int {
 	case []int64:
 		return cap(c)
 	case []string:
+		return cap(c)
+	case []float64:
 		return cap(c)
 	}
 	return 0
@@ -297,6 +312,12 @@ func (m *machine) index(c, i interface{}) interface{} {
 			fail()
 		}
 		return cv[k]
+	case []float64:
+		k := toIndex(i)
+		if k < 0 || k >= len(cv) {
+			fail()
+		}
+		return cv[k]
 	case string:
 		k := toIndex(i)
 		if k < 0 || k >= len(cv) {
@@ -350,7 +371,7 @@ func (m *machine) slice(c interface{}, hasLo bool, lo interface{}, hasHi bool, h
 	n, ok := lenOf(c)
 	cpc := capOf(c)
 	switch c.(type) {
-	case []interface{}, []int64, []string:
+	case []interface{}, []int64, []string, []float64:
 	default:
 		ok = false
 	}
@@ -385,6 +406,8 @@ func (m *machine) slice(c interface{}, hasLo bool, lo interface{}, hasHi bool, h
 	case []int64:
 		return cv[l:h:mx]
 	case []string:
+		return cv[l:h:mx]
+	case []float64:
 		return cv[l:h:mx]
 	}
 	fail()
@@ -435,7 +458,7 @@ func (m *machine) in(k, c interface{}) interface{} {
 			}
 		}
 		return false
-	case []string:
+	case []string, []float64:
 		return valUndet{}
 	}
 	fail()
@@ -484,26 +507,108 @@ func mustConv(v interface{}, t tkind) interface{} {
 	return x
 }
 
+// convElems converts the elements of an untyped list for an append to a typed
+// slice.  An element without a Go conversion is an error; when it is not the
+// first one, the elements before it may already have been written into shared
+// spare capacity, which the property does not settle (under-determined).
+func convElems(rv []interface{}, t tkind) []interface{} {
+	out := make([]interface{}, len(rv))
+	for i, e := range rv {
+		x, r := conv(e, t)
+		switch r {
+		case cFail:
+			if i == 0 {
+				fail()
+			}
+			undet("append stops at an unconvertible element after writing earlier ones")
+		case cUndet:
+			undet("conversion without a Go counterpart")
+		}
+		out[i] = x
+	}
+	return out
+}
+
+// add is `+` on slices (and strings): Go's append.  When the operands have
+// different static element types Go has no single append; the model is the
+// loop `for _, e := range r { l = append(l, T(e)) }`, which appends in place
+// while the capacity lasts exactly like append(l, r...) does.
 func (m *machine) add(l, r interface{}) interface{} {
 	switch lv := l.(type) {
 	case []interface{}:
 		switch rv := r.(type) {
 		case []interface{}:
 			return append(lv, rv...)
-		case []int64, []string:
-			undet("append of a typed slice to an untyped one")
+		case []int64:
+			for _, e := range rv {
+				lv = append(lv, e)
+			}
+			return lv
+		case []float64:
+			for _, e := range rv {
+				lv = append(lv, e)
+			}
+			return lv
+		case []string:
+			for _, e := range rv {
+				lv = append(lv, e)
+			}
+			return lv
 		}
 		return append(lv, r)
 	case []int64:
-		switch r.(type) {
-		case []interface{}, []int64, []string:
-			undet("append of a slice to a typed slice")
+		switch rv := r.(type) {
+		case []int64:
+			return append(lv, rv...)
+		case []float64:
+			for _, e := range rv {
+				lv = append(lv, int64(e))
+			}
+			return lv
+		case []interface{}:
+			for _, e := range convElems(rv, kInt64) {
+				lv = append(lv, e.(int64))
+			}
+			return lv
+		case []string:
+			if len(rv) == 0 {
+				return lv
+			}
+			fail()
 		}
 		return append(lv, mustConv(r, kInt64).(int64))
+	case []float64:
+		switch rv := r.(type) {
+		case []float64:
+			return append(lv, rv...)
+		case []int64:
+			for _, e := range rv {
+				lv = append(lv, float64(e))
+			}
+			return lv
+		case []interface{}:
+			for _, e := range convElems(rv, kFloat64) {
+				lv = append(lv, e.(float64))
+			}
+			return lv
+		case []string:
+			if len(rv) == 0 {
+				return lv
+			}
+			fail()
+		}
+		return append(lv, mustConv(r, kFloat64).(float64))
 	case []string:
-		switch r.(type) {
-		case []interface{}, []int64, []string:
-			undet("append of a slice to a typed slice")
+		switch rv := r.(type) {
+		case []string:
+			return append(lv, rv...)
+		case []interface{}:
+			for _, e := range convElems(rv, kString) {
+				lv = append(lv, e.(string))
+			}
+			return lv
+		case []int64, []float64:
+			undet("append of a numeric slice to a string slice")
 		}
 		return append(lv, mustConv(r, kString).(string))
 	case string:
@@ -550,6 +655,17 @@ func (m *machine) assign(lhs expr, v interface{}) {
 				fail()
 			}
 			x := mustConv(v, kString).(string)
+			if k == len(cv) {
+				m.assign(l.c, append(cv, x))
+				return
+			}
+			cv[k] = x
+		case []float64:
+			k := toIndex(i)
+			if k < 0 || k > len(cv) {
+				fail()
+			}
+			x := mustConv(v, kFloat64).(float64)
 			if k == len(cv) {
 				m.assign(l.c, append(cv, x))
 				return
@@ -646,7 +762,7 @@ func (m *machine) typedRead(e expr) bool {
 		return false
 	}
 	switch m.eval(c).(type) {
-	case []int64, []string, *mst:
+	case []int64, []string, []float64, *mst:
 		return true
 	}
 	return false
